@@ -31,7 +31,7 @@ OBLIGATIONS = {"poly:star": 20, "poly:selfintersecting": 20, "poly:lattice": 20,
                "pt:outside-bbox": 100, "pt:level-with-vertex": 200, "meta": 100,
                "cells_inside_polygon": 10, "inside-buffer": 50, "options": 50,
                "poly:far-from-origin": 20, "poly:far-open>3": 10,
-               "cells:grid-moved-after-use": 20, "cells:polygon-at-one-end": 3,
+               "cells:grid-moved-after-use": 20, "cells:polygon-at-one-end": 3, "cells:polygon-within-one-row-or-column": 10,
                "cells:big-grid": 4, "poly:finely-digitised": 6, "poly:near-rectangle": 20}
 
 
@@ -272,11 +272,20 @@ def run_case(ctx, case):
     variants["translate"] = (poly + t, pts + t)
     variants["scale-pow2"] = (poly * 8.0, pts * 8.0)
     variants["scale"] = (poly * 3.7, pts * 3.7)
-    for nm, (pv, qv) in variants.items():
+    # very large and very small units (exact powers of two: every comparison the
+    # even-odd rule makes is the same; the tolerance is scaled with the unit)
+    for k_ in (532, 900, -300, -532, -900):
+        variants[f"scale-2**{k_}"] = (poly * 2.0 ** k_, pts * 2.0 ** k_,
+                                      {"atol": 1e-8 * 2.0 ** k_} if k_ < 0 else {})
+    for nm, var in variants.items():
+        pv, qv = var[:2]
+        kwv = var[2] if len(var) > 2 else {}
         ctx.tag("meta")
+        if nm.startswith("scale-2**"):
+            ctx.tag("meta:extreme-units")
         ctx.api("points_inside_polygon")
         g2 = np.asarray(gu.points_inside_polygon(np.ascontiguousarray(qv),
-                                                 np.ascontiguousarray(pv)))
+                                                 np.ascontiguousarray(pv), **kwv))
         # judged points stay > margin away from the edges after the map
         diff = np.where(judged & (g2 != got))[0]
         ctx.check("inside.meta." + nm, len(diff) == 0,
@@ -349,6 +358,23 @@ def run_cells_case(ctx, case):
         okxy &= abs(x - centres[int(c), 0]) < 1e-9 * max(1, abs(x)) and \
             abs(y - centres[int(c), 1]) < 1e-9 * max(1, abs(y))
     ctx.check("cells_inside.xy", bool(okxy), "cells_inside_polygon|xy", case, None)
+    # the same map drawn in a much smaller unit (2**-40), the caller giving the tolerance
+    # in that unit: the same cells
+    un = 2.0 ** -40
+    gs = Grid("s", nc, nr, cellsize=csz * un, xllcorner=xll * un, yllcorner=yll * un)
+    ctx.api("cells_inside_polygon")
+    ctx.tag("cells:small-unit-with-caller-tolerance")
+    try:
+        dfs = gs.cells_inside_polygon(poly * un, atol=1e-8 * un)
+        cells_s = set(int(c) for c in dfs["cell"].values)
+        dif = sorted(c for c in cells ^ cells_s if d[c] > 1e-6 * size)
+        ctx.check("cells_inside.small-unit", not dif,
+                  "cells_inside_polygon|differs-in-a-small-unit-with-the-tolerance-given",
+                  case, lambda: {"unit": "2**-40", "atol": 1e-8 * un, "cells_differing": dif[:6],
+                                 "n_base": len(cells), "n_small": len(cells_s)})
+    except Exception as ex:
+        ctx.check("cells_inside.small-unit", False,
+                  "cells_inside_polygon|raises-in-a-small-unit", case, {"exc": repr(ex)[:200]})
     ctx.nontrivial(poly, nr, nc, xll, yll, csz)
 
 
@@ -561,6 +587,33 @@ def run(ctx):
             ctx.tag("cells:polygon-at-one-end")
             run_cells_case(ctx, {"kind": "cells", "polygon": tri, "nrows": nr_,
                                  "ncols": nc_, "xll": 0.0, "yll": 0.0, "csz": 1.0})
+        if it0 % 6 == 1:
+            # small and flat polygons: a river reach lying within one row (or column) of
+            # cells and covering some of their centres, a paddock smaller than a cell
+            # around one centre
+            nr_, nc_ = int(rng.integers(1, 10)), int(rng.integers(1, 10))
+            cs_ = [1.0, 0.5, 2.0, 0.25][it0 // 6 % 4]
+            x0_, y0_ = float(rng.integers(-3, 4)), float(rng.integers(-3, 4))
+            r_, c_ = int(rng.integers(0, nr_)), int(rng.integers(0, nc_))
+            yc = y0_ + (nr_ - 1 - r_ + 0.5) * cs_
+            xc = x0_ + (c_ + 0.5) * cs_
+            kindp = it0 // 6 % 3
+            if kindp == 0:
+                ca, cb = sorted([float(rng.uniform(-0.4, nc_ + 0.4)) for _ in range(2)])
+                cb = max(cb, ca + 0.3)
+                flat = np.array([[x0_ + ca * cs_, yc - 0.3 * cs_], [x0_ + cb * cs_, yc - 0.25 * cs_],
+                                 [x0_ + cb * cs_, yc + 0.35 * cs_], [x0_ + ca * cs_, yc + 0.2 * cs_]])
+            elif kindp == 1:
+                ra, rb = sorted([float(rng.uniform(-0.4, nr_ + 0.4)) for _ in range(2)])
+                rb = max(rb, ra + 0.3)
+                flat = np.array([[xc - 0.3 * cs_, y0_ + ra * cs_], [xc + 0.2 * cs_, y0_ + ra * cs_],
+                                 [xc + 0.35 * cs_, y0_ + rb * cs_], [xc - 0.25 * cs_, y0_ + rb * cs_]])
+            else:
+                flat = np.array([[xc - 0.2 * cs_, yc - 0.1 * cs_], [xc + 0.3 * cs_, yc - 0.2 * cs_],
+                                 [xc + 0.1 * cs_, yc + 0.25 * cs_]])
+            ctx.tag("cells:polygon-within-one-row-or-column")
+            run_cells_case(ctx, {"kind": "cells", "polygon": flat, "nrows": nr_,
+                                 "ncols": nc_, "xll": x0_, "yll": y0_, "csz": cs_})
         if it0 % 4 == 0:
             poly2 = rng.integers(0, 9, size=(int(rng.integers(3, 9)), 2)).astype(float)
             off = np.array(FAR[(it0 // 8) % len(FAR)]) if it0 % 8 == 0 else np.zeros(2)
